@@ -60,9 +60,6 @@ def mkTyMU (j : Json) : Option (List Ty) :=
   if jstr j "base" = "union" then (jarr j "members").mapM mkTyM else (mkTyM j).map fun t => [t]
 def mkTySU (j : Json) : Option (List STy) :=
   if jstr j "base" = "union" then (jarr j "members").mapM mkTyS else (mkTyS j).map fun t => [t]
-def unionSem {τ : Type} (sem : TySem τ) : TySem (List τ) :=
-  { accepts := fun ts v => ts.any fun t => sem.accepts t v,
-    isEmpty := fun ts => match ts with | [t] => sem.isEmpty t | _ => false }
 
 def handlePath (j : Json) : List (String × Json) :=
   let paths := (jarr j "paths").map fun p => match p with
